@@ -79,6 +79,7 @@ package etype
 //@   pure
 //@   trusted_frame interface frame; implementations delegate to the family functions
 //@   ensures err == nil ==> len(h) == et_hmacbits(tagof(e)) / 8
+//@   ensures err == nil ==> bytes(h) == et_cksum(tagof(e), bytes(protocolKey), usage, bytes(data))
 //@ func (crypto/etype.EType).VerifyChecksum(e, protocolKey, data, chksum, usage) (ok)
 //@   pure
 //@   trusted_frame interface frame; implementations delegate to the family functions
